@@ -52,6 +52,7 @@ type schemaType struct {
 	Oname   schemaName    `json:"oname"`
 	Fields  []schemaField `json:"fields,omitempty"`
 	Options []string      `json:"options,omitempty"`
+	Info    []string      `json:"info,omitempty"` // info keys attached to every enum option (value "v-<key>")
 	Item    *schemaType   `json:"item,omitempty"`
 }
 
@@ -60,6 +61,7 @@ type schemaField struct {
 	Type     schemaType `json:"type"`
 	Pres     string     `json:"pres"`
 	PresForm string     `json:"presForm"`
+	Attrs    []string   `json:"attrs,omitempty"` // further body attributes, printed verbatim (rules of harness-built bundles)
 }
 
 type schemaSeg struct {
@@ -87,6 +89,7 @@ type schemaDecl struct {
 	Fields   []schemaField   `json:"fields,omitempty"`
 	Nested   []schemaDecl    `json:"nested,omitempty"`
 	Options  []string        `json:"options,omitempty"`
+	Info     []string        `json:"info,omitempty"` // info keys attached to every enum option (value "v-<key>")
 	Unspec   bool            `json:"unspec,omitempty"`
 	Prefix   string          `json:"prefix,omitempty"`
 	BasePath string          `json:"basePath,omitempty"`
@@ -141,6 +144,21 @@ func (p *j5sPrinter) line(format string, a ...any) {
 	p.sb.WriteByte('\n')
 }
 
+// enumOption prints one enum option; info keys become the option's info map (P schema.proto Enum.Option.info)
+func (p *j5sPrinter) enumOption(name string, info []string) {
+	if len(info) == 0 {
+		p.line("option %s", name)
+		return
+	}
+	p.line("option %s {", name)
+	p.ind++
+	for _, k := range info {
+		p.line("info.%s = %q", k, "v-"+k)
+	}
+	p.ind--
+	p.line("}")
+}
+
 var scalarSpelling = map[string]string{
 	"string": "string", "bool": "bool",
 	"int32": "integer:INT32", "int64": "integer:INT64", "uint32": "integer:UINT32", "uint64": "integer:UINT64",
@@ -183,7 +201,7 @@ func (p *j5sPrinter) typeSpec(t *schemaType) (string, func()) {
 				}
 			case "enum":
 				for _, o := range t.Options {
-					p.line("option %s", o)
+					p.enumOption(o, t.Info)
 				}
 			}
 		}
@@ -211,6 +229,7 @@ func (p *j5sPrinter) field(kw string, f *schemaField) {
 			mark = "? "
 		}
 	}
+	attrs = append(attrs, f.Attrs...)
 	spec, body := p.typeSpec(&f.Type)
 	if body == nil && len(attrs) == 0 {
 		p.line("%s %s %s%s", kw, f.Name.Src, mark, spec)
@@ -259,7 +278,7 @@ func (p *j5sPrinter) decl(d *schemaDecl) {
 			p.line("option UNSPECIFIED")
 		}
 		for _, o := range d.Options {
-			p.line("option %s", o)
+			p.enumOption(o, d.Info)
 		}
 		p.ind--
 		p.line("}")
